@@ -16,6 +16,7 @@ generic definitions the theorems are about (Generated/FreeEnergy.lean, Model/Fre
   sig <Functor>                                   `TP|T par,par,...`   (signature table of the translator)
   builder <Builder>                               `var s l g`          (builder tables of the translator)
   sfus <Hfus> <Tm>                                `_init_data`'s Sfus from the stored Hfus, Tm
+  sfusedit <Sfus> <Hfus> <Tm> <Hfus'> <Tm'>       Sfus after the Tm / Hfus setter (values before → after the edit)
   phaseref <Tm> <Tb>                              `_set_phase_ref` without an explicit phase (uses T_ref of `env`)
   mix <n,n,...> <v,v,...>                         IdealTPMixtureModel / IdealTMixtureModel
   mixS <n,n,...> <s,s,...>                        Mixture.S → IdealEntropyModel
@@ -182,6 +183,10 @@ def step (st : St) (line : String) : St × String :=
       if ns.length == vs.length && ns.length == xs.length then
         (st, showFloat (if isH then mixtureHx st.env incl ns vs xs else mixtureSx st.env incl ns vs xs))
       else (st, "bad-op")
+    | _, _, _, _, _ => (st, "bad-op")
+  | ["sfusedit", a, b, c, d, e] =>
+    match parseOpt? a, parseOpt? b, parseOpt? c, parseOpt? d, parseOpt? e with
+    | some a, some b, some c, some d, some e => (st, showOpt (sfusAfterEdit st.env a b c d e))
     | _, _, _, _, _ => (st, "bad-op")
   | [op, force, tc, p, t, pr] =>
     if op == "Hforce" || op == "Sforce" then
